@@ -842,10 +842,14 @@ func convNameCases(c *Ctx) {
 
 // convCorpusFiles: minimal witnesses of the listed findings and boundary schemas (text format).
 var convCorpusFiles = []struct{ origin, text string }{
-	// FK1: enum-level features are ignored by filedesc
-	{"corpus:fk1", `name:"conv/c/fk1.proto" package:"c.fk1" syntax:"editions" edition:EDITION_2023
+	// regression for FK1 (repaired by 42c075f): enum-level features must be honoured by filedesc too;
+	// the linked witness is editionsfuzztest/test2editions.proto (TestAllTypesProto2Editions.NestedEnum)
+	{"corpus:fk1-regression", `name:"conv/c/fk1.proto" package:"c.fk1" syntax:"editions" edition:EDITION_2023
 	  enum_type:{name:"E" value:{name:"A" number:1} options:{features:{enum_type:CLOSED}}}
-	  message_type:{name:"M" field:{name:"e" number:1 label:LABEL_OPTIONAL type:TYPE_ENUM type_name:".c.fk1.E"}}`},
+	  message_type:{name:"M" field:{name:"e" number:1 label:LABEL_OPTIONAL type:TYPE_ENUM type_name:".c.fk1.E"}
+	    enum_type:{name:"N" value:{name:"Z" number:0} value:{name:"NEG" number:-1} options:{features:{enum_type:CLOSED json_format:LEGACY_BEST_EFFORT}}}
+	    options:{features:{json_format:ALLOW}}}
+	  options:{features:{enum_type:OPEN}}`},
 	// FK2: lazy option on an extension
 	{"corpus:fk2", `name:"conv/c/fk2.proto" package:"c.fk2"
 	  message_type:{name:"M" extension_range:{start:100 end:200}}
